@@ -1496,6 +1496,10 @@ sc_notify_payload_nary (sc_array_t * receivers, sc_array_t * senders,
       if (senders != NULL) {
         *(int *) sc_array_push (senders) = 0;
       }
+      if (in_payload != NULL && out_payload != NULL) {
+        /* deliver the payload of the self-notification */
+        sc_array_copy (out_payload, in_payload);
+      }
     }
 
     /* we return if there is only one process */
